@@ -44,7 +44,7 @@ ASSUMPTIONS = [
 def node(i: int) -> Any:
     return st.fixed_dictionaries(dict(
         style=st.sampled_from(["sync", "async", "gen", "agen", "cm", "acm", "gen", "agen"]),
-        ctx=st.just(False), sleep=st.sampled_from([0, 0, 0.05]),
+        ctx=st.just(False), sleep=st.sampled_from([0, 0, 0.05]), tsleep=st.sampled_from([0, 0, 0, 0.8]),
         fail=st.sampled_from([None, None, None, None, None, "before"]), swallow=st.booleans(),
         deps=st.lists(st.tuples(st.integers(0, max(i - 1, 0)), st.sampled_from([True, True, False])).map(list), max_size=2 if i > 0 else 0, unique_by=lambda x: x[0]),
     ))
@@ -59,6 +59,8 @@ def cases() -> Any:
         "ack_type": st.sampled_from(["when_received", "when_executed", "when_saved"]),
         "starts": st.lists(st.sampled_from([0, 0, 0.05, 0.1]), min_size=1, max_size=3),
         "cleanup": st.sampled_from([0, 0, 0.05, 0.2]),
+        # a timeout label the task function stays well within (it bounds the function, not the teardown of its dependencies)
+        "slack_timeout": st.sampled_from([None, None, 0.5]),      # function: <= 0.05 + 0.2 s; a slow teardown: 0.8 s
         # how the execution is driven: the worker's Receiver (ackable message) or the bundled InMemoryBroker, whose own
         # propagate_exceptions / await_inplace arguments configure the receiver it embeds
         "via": st.sampled_from(["receiver", "receiver", "inmemory", "inmemory_inplace"]),
@@ -116,7 +118,7 @@ def run_case(c: Dict[str, Any]) -> Outcome:
             if start:
                 await asyncio.sleep(start)
             EXEC.set(k)
-            labels = {"timeout": 0.1} if c["outcome"] == "timeout" else {}
+            labels = {"timeout": 0.1} if c["outcome"] == "timeout" else ({"timeout": c["slack_timeout"]} if c.get("slack_timeout") else {})
             slp = 0.5 if c["outcome"] == "timeout" else 0.05
             if via != "receiver":
                 await AsyncKicker("t", b, labels).with_task_id(f"id{k}").kiq(k, slp)
